@@ -11,11 +11,15 @@ where every element, tag and attribute lies.  Every position 0..len(doc) is then
  * balanced_inward(): the element at the position followed by its chain of first children;
  * comments, CDATA, processing instructions and script/style bodies never contribute tags (the generator fills
    them with markup-like text; the recorded structure ignores it).
+
+bounded/c09_edge.py adds trees with self-closed script/style elements and comments / CDATA sections whose text begins
+or ends with delimiter characters (`<!-->...-->` in XML mode, `<!---->`, `<![CDATA[]...]]]>`); same renderer, same oracle.
 """
 import json
 
 from .common import Clause, run_parallel
 from . import c09_gen as G
+from . import c09_edge as E
 
 
 def check_attributes(doc, got, recs, where):
@@ -106,6 +110,17 @@ def check_tiny(tree_json, xml):
     return check_doc(G.render(json.loads(tree_json)), bool(xml))
 
 
+def check_edge_random(seed, index, max_nodes, xml):
+    return check_doc(E.generate(seed, index, max_nodes, bool(xml)), bool(xml))
+
+
+def _edge_tiny(nmax):
+    for xml in (0, 1):
+        for n in range(1, nmax + 1):
+            for f in E.edge_forests(n, bool(xml)):
+                yield (json.dumps(f), xml)
+
+
 def _tiny(nmax):
     for xml in (0, 1):
         for n in range(1, nmax + 1):
@@ -137,6 +152,35 @@ def run(tier, seed):
                bound='all forests with 1..%d nodes; every position 0..len(doc)' % nmax,
                rule='a case is one document in one mode; distinct by (tree, mode)', exhaustive=True)
     run_parallel(c, 'bounded.c09', 'check_tiny', _tiny(nmax), chunk=400)
+    c.done()
+    out.append(c)
+    # self-closed script/style elements; comments / CDATA whose text starts or ends with delimiter characters
+    ntrees, size = (160, 10) if quick else (1500, 30)     # per mode
+    for xml in (0, 1):
+        c = Clause('html-edge-%s' % ('xml' if xml else 'html'), 'B',
+                   generator='bounded/c09_edge.py: document rendered from a random tree (seed %d) over the vocabulary of c09_gen plus '
+                             'SELF-CLOSED <script .../> / <style .../> elements (with the script/style attribute sets, also followed by '
+                             'paired script/style) and comments / CDATA sections whose text is composed from pieces (markup-like text, '
+                             '`>`, `-`, `->`, `]`, `]]`, `]>` ...) under the well-formedness rule of the language: %s; checked with %s' % (
+                                 seed,
+                                 "XML comment text has no `--` and does not end with `-` (so `<!-->...-->` and `<!--->...-->` occur)" if xml
+                                 else "HTML comment text does not start with `>` / `->`, has no `<!--`, `-->`, `--!>` (so `<!---->`, "
+                                      "`<!--- <b>-->`, `<!--[if IE]>...-->`, `--` inside occur)",
+                                 "{'xml': True}" if xml else 'default options (HTML mode)'),
+                   bound='%d trees of <= %d nodes, nesting depth <= 6; every position 0..len(doc)' % (ntrees, size),
+                   rule='a case is one generated document (match, balanced_outward, balanced_inward at every position against the '
+                        'generator record); distinct by (seed, index, size, mode)', exhaustive=False)
+        run_parallel(c, 'bounded.c09', 'check_edge_random', ((seed, i, size, xml) for i in range(ntrees)), chunk=max(1, ntrees // 56))
+        c.done()
+        out.append(c)
+    nmax = 3 if quick else 4
+    c = Clause('html-edge-tiny-exhaustive', 'B',
+               generator='every forest over paired <a> and leaves <style/>, <script src="a.js"/>, <script><a></script>, '
+                         '<![CDATA[]<a>]]]>, text, and the comments <!--><a>-->, <!---></a>--> (XML mode) / <!---->, <!--- <a>--> '
+                         '(HTML mode), compact layout, both modes',
+               bound='all forests with 1..%d nodes; every position 0..len(doc)' % nmax,
+               rule='a case is one document in one mode; distinct by (tree, mode)', exhaustive=True)
+    run_parallel(c, 'bounded.c09', 'check_tiny', _edge_tiny(nmax), chunk=100)
     c.done()
     out.append(c)
     return out
